@@ -3,9 +3,9 @@ from checks_common import *
 CHECK = dict(
     src=['harness/c10_mem_vs_stream.cpp'], variants=[P, S16], level='model_checking', extra_flags=['-fno-access-control'],
     technique='differential exhaustive exploration: every (document, padding, mutation, request order, stream kind, delivery schedule with bounded short-read deviations) executed through the real memory reader and the real stream reader; outcomes compared',
-    level_text='For every corpus document of the four archives: the valid document, every truncation (last 48/96 bytes) and 16 byte values at each of the last 32/64 positions, at every padding 0..chunk with the '
+    level_text='For every corpus document of the four archives: the valid document, every truncation (last 24 bytes, thorough 48) and 10 (thorough 16) byte values at each of the last 12 (thorough 32) positions, at every padding 0..chunk with the '
                '16/32-byte hook chunks and at paddings around the production 256-byte boundary, loaded in document order, in reversed request order and with each one of the first four top-level fields left unrequested (the reader has to skip it; one document carries a 600-byte value, longer than two chunks), with Throw and Skip policies, from std::istringstream, from a '
-               'harness streambuf whose refills deliver 1,2,3 or 7 bytes at explorer-chosen refill indices (<= 1 deviation quick, <= 2 thorough) and from a non-seekable streambuf. '
+               'harness streambuf whose refills deliver 1,2,3 or 7 bytes at explorer-chosen refill indices (<= 1 deviation; thorough: <= 2 for the valid documents) and from a non-seekable streambuf. '
                'Each execution is one environment schedule on the real readers; transitions = stream refills served.',
     level_note='Trusted: the harness streambuf (engine/env.hpp) only produces behaviour the std::streambuf contract allows. A non-seekable stream may answer a backward field request with InputOutputError '
                '(it cannot do better; accepted only when the harness streambuf really refused a position before the current one); every other difference between memory and stream outcome is a violation. Save-side byte equality is checked by C01/C06.',
